@@ -1179,10 +1179,17 @@ func (m *Manager) UnconfirmedParents(txn types.Transaction) []types.Transaction 
 			break
 		}
 	}
-	// reverse so that parents always come before children
-	for i := 0; i < len(parents)/2; i++ {
-		j := len(parents) - 1 - i
-		parents[i], parents[j] = parents[j], parents[i]
+	// return the parents in pool order: a transaction only enters the pool
+	// after everything it depends on, so this puts parents before children
+	// (reversing the discovery order does not when dependencies form a diamond)
+	indices := make([]int, 0, len(seen))
+	for index := range seen {
+		indices = append(indices, index)
+	}
+	sort.Ints(indices)
+	parents = parents[:0]
+	for _, index := range indices {
+		parents = append(parents, m.txpool.txns[index])
 	}
 	return parents
 }
@@ -1232,10 +1239,17 @@ func (m *Manager) V2TransactionSet(basis types.ChainIndex, txn types.V2Transacti
 			break
 		}
 	}
-	// reverse so that parents always come before children
-	for i := range len(parents) / 2 {
-		j := len(parents) - 1 - i
-		parents[i], parents[j] = parents[j], parents[i]
+	// put the parents in pool order: a transaction only enters the pool after
+	// everything it depends on, so this puts parents before children
+	// (reversing the discovery order does not when dependencies form a diamond)
+	indices := make([]int, 0, len(seen))
+	for index := range seen {
+		indices = append(indices, index)
+	}
+	sort.Ints(indices)
+	parents = parents[:0]
+	for _, index := range indices {
+		parents = append(parents, m.txpool.v2txns[index].DeepCopy())
 	}
 
 	// update the transaction's basis to match tip
